@@ -420,11 +420,16 @@ def check_subs(src: str, prop: str = "C05", with_function: bool = True) -> Tuple
             for nm in used & set(fn.subroutines):
                 sub = fn.subroutines[nm]
                 exp_c = sorted(p.ins[start_of[i]].line for i in sites.get(nm, []) if i in live)
-                if lines_of(fn.caller_blocks(sub)) != exp_c:
-                    add("function:callers", f"Function.caller_blocks({nm}) at lines {lines_of(fn.caller_blocks(sub))}, expected {exp_c}")
                 exp_r = sorted(p.ins[i + 1].line for i in sites.get(nm, []) if i in live and i + 1 < n)
-                if lines_of(fn.return_point_blocks(sub)) != exp_r:
-                    add("function:return-points", f"Function.return_point_blocks({nm}) at lines {lines_of(fn.return_point_blocks(sub))}, expected {exp_r}")
+                try:
+                    got_c, got_r = lines_of(fn.caller_blocks(sub)), lines_of(fn.return_point_blocks(sub))
+                except Exception as ex:  # pylint: disable=broad-except
+                    add("function:accessor-raised", f"Function.caller_blocks / return_point_blocks({nm}) raised {type(ex).__name__}: {ex}")
+                    continue
+                if got_c != exp_c:
+                    add("function:callers", f"Function.caller_blocks({nm}) at lines {got_c}, expected {exp_c}")
+                if got_r != exp_r:
+                    add("function:return-points", f"Function.return_point_blocks({nm}) at lines {got_r}, expected {exp_r}")
     st.tealer_s = time.time() - t0 - gstats.time
     st.queries = {"sat": gstats.sat, "unsat": gstats.unsat, "unknown": gstats.unknown}
     st.solver_s = gstats.time
